@@ -66,6 +66,8 @@ def stub_set(name, config):
     if m:
         f, w = m.group(1), m.group(2)
         mod = "f32" if w == "32" else "f64"
+        if f == "acos_approx":
+            return [("glam::%s::math::%s::acos_approx" % (mod, mm), "crate::uf::acos_f%s" % w)]
         return [("glam::%s::math::%s::%s" % (mod, mm, f), "crate::uf::%s_f%s" % (f, w))]
     if name == "rem32":
         return [("<f32 as core::ops::Rem<f32>>::rem", "crate::uf::rem_f32"),
@@ -125,8 +127,73 @@ def contract_ob(name, prop, c, args, call, *, lemma_only=False, **kw):
     return [main, tw]
 
 
+def assoc_trees(terms, op="+"):
+    """All association orders of a k-term sum/product (k <= 4), as expression strings, in the same
+    order as the `sumK` / `prodK` helpers of the woven spec module."""
+    t = list(terms)
+    o = " %s " % op
+    if len(t) == 1:
+        return [t[0]]
+    if len(t) == 2:
+        return ["(%s%s%s)" % (t[0], o, t[1])]
+    if len(t) == 3:
+        a, b, c = t
+        return ["((%s%s%s)%s%s)" % (a, o, b, o, c), "(%s%s(%s%s%s))" % (a, o, b, o, c), "((%s%s%s)%s%s)" % (a, o, c, o, b)]
+    a, b, c, d = t
+    cat = lambda p, q, r, u: "(((%s%s%s)%s%s)%s%s)" % (p, o, q, o, r, o, u)
+    bal = lambda p, q, r, u: "((%s%s%s)%s(%s%s%s))" % (p, o, q, o, r, o, u)
+    return [cat(a, b, c, d), cat(a, b, d, c), cat(a, c, b, d), cat(a, c, d, b), cat(a, d, b, c), cat(a, d, c, b), cat(b, c, a, d), cat(b, c, d, a),
+            cat(b, d, a, c), cat(b, d, c, a), cat(c, d, a, b), cat(c, d, b, a), bal(a, b, c, d), bal(a, c, b, d), bal(a, d, b, c)]
+
+
+PROBE = False
+
+
+def load_trees():
+    try:
+        return json.load(open(os.path.join(VERIF, "lib", "trees.json")))
+    except Exception:
+        return {}
+
+
+def tree_obs(name, prop, setup, lanes, w, *, op="+", fn="", desc="", stubs=("sse",), tier="quick", extra_check=""):
+    """tree_in obligation (DESIGN 3.3): every (result, terms) lane must equal the sum/product of its terms
+    in SOME association order.  Discharged through a fast path - the single tree recorded in
+    lib/trees.json as matching the current code (a stronger clause, seconds in cvc5) - with the full
+    disjunction over all orders as the fallback `<name>__full`, run only when the fast path is refuted:
+    a re-association then still verifies (no false alarm), anything else is a violation."""
+    helper = ("sum" if op == "+" else "prod")
+    k = len(lanes[0][1])
+    full = " && ".join("__verif::%s%d_%d(%s, %s)" % (helper, k, w, r, ", ".join(ts)) for (r, ts) in lanes) if k >= 2 else " && ".join("__verif::leq%d(%s, %s)" % (w, r, ts[0]) for (r, ts) in lanes)
+    full_body = setup + '\n    check!(%s, "%s of the terms in some association order");' % (full, "sum" if op == "+" else "product") + extra_check
+    trees = load_trees()
+    ntrees = len(assoc_trees(lanes[0][1], op))
+    out = []
+    if PROBE and name not in trees and ntrees > 1:
+        for i in range(ntrees):
+            cond = " && ".join("__verif::leq%d(%s, %s)" % (w, r, assoc_trees(ts, op)[i]) for (r, ts) in lanes)
+            o = Ob("%s__probe%d" % (name, i), prop, setup + '\n    check!(%s, "tree %d");' % (cond, i), fn=fn, kind="probe", solver="cvc5", stubs=list(stubs), tier=tier, cls="structure", desc="probe tree %d" % i)
+            out.append(o)
+        return out
+    fullob = Ob(name + "__full", prop, full_body, fn=fn, kind="lemma-fallback", solver="cvc5", stubs=list(stubs), tier=tier, cls="structure", desc=desc + " [full disjunction]")
+    if name in trees and ntrees > 1:
+        i = trees[name]
+        cond = " && ".join("__verif::leq%d(%s, %s)" % (w, r, assoc_trees(ts, op)[i]) for (r, ts) in lanes)
+        fast = Ob(name, prop, setup + '\n    check!(%s, "the association order recorded for the current code (tree %d)");' % (cond, i) + extra_check, fn=fn, kind="lemma", solver="cvc5",
+                  stubs=list(stubs), tier=tier, cls="structure", desc=desc + " [fast path: recorded tree %d of %d; fallback: any order]" % (i, ntrees), clauses=len(lanes))
+        fast.fallback = fullob.name
+        out += [fast, fullob]
+    else:
+        main = Ob(name, prop, full_body, fn=fn, kind="lemma", solver="cvc5", stubs=list(stubs), tier=tier, cls="structure", desc=desc, clauses=len(lanes))
+        out.append(main)
+    return out
+
+
 # --------------------------------------------------------------------------------------------
 def harness_text(ob, config):
+    if ob.kind == "native":
+        return "/// [%s] native bounded check on the real code: %s\n#[cfg(not(kani))]\npub fn %s() {\n    %s\n}" % (
+            ob.prop, ob.desc.replace("\n", " "), ob.name, ob.body)
     a = []
     a.append("/// [%s] %s %s" % (ob.prop, ob.kind, ob.desc.replace("\n", " ")))
     if ob.contract:
@@ -433,6 +500,23 @@ def classify(ob, r):
 
 
 # --------------------------------------------------------------------------------------------
+def kill_orphan_solvers():
+    """Kani's --harness-timeout kills cbmc but leaves its external SMT solver child running
+    (observed: orphaned cvc5 processes burning CPU for hours). Kill cvc5 processes that were started
+    by CBMC (`cvc5 /tmp/smt2_dec_problem_*`) and have been re-parented to init."""
+    try:
+        out = subprocess.run(["ps", "-eo", "pid,ppid,cmd"], stdout=subprocess.PIPE, text=True).stdout
+        for l in out.splitlines():
+            f = l.split(None, 2)
+            if len(f) == 3 and f[1] == "1" and "cvc5 /tmp/smt2_dec_problem" in f[2]:
+                try:
+                    os.kill(int(f[0]), 9)
+                except Exception:
+                    pass
+    except Exception:
+        pass
+
+
 def load_costs():
     p = os.path.join(VERIF, "lib", "costs.json")
     try:
@@ -486,6 +570,7 @@ class Session:
         os.makedirs(self.logs_dir, exist_ok=True)
 
     def cleanup(self):
+        kill_orphan_solvers()
         if getattr(self, "keep", False):
             return
         shutil.rmtree(self.scratch, ignore_errors=True)
@@ -507,7 +592,7 @@ class Session:
                 continue
             if isinstance(c, (int, float)):
                 o.cost = max(1.0, c)
-                if c > 100 and o.tier == "quick" and o.expect == "pass":
+                if c > 150 and o.tier == "quick" and o.expect == "pass":
                     o.tier = "thorough"
                     if not o.name.endswith("__split"):
                         self.deferred.append(o.name)
@@ -520,19 +605,55 @@ class Session:
             obs = [o for o in obs if o in sel or (o.contract in need) or o.name in splits]
         a = [o for o in obs if not o.plain]
         b = [o for o in obs if o.plain]
+        self.groups = getattr(self, "groups", [])
         if a:
-            self._run_crate(config, "", contracts, a, extra_rust, verif_extra, timeout_s)
+            self.groups.append({"config": config, "tag": "", "contracts": contracts, "obs": a, "extra": extra_rust, "vextra": verif_extra, "timeout": timeout_s})
         if b:
-            self._run_crate(config, "_plain", [], b, extra_rust, verif_extra, timeout_s)
+            self.groups.append({"config": config, "tag": "_plain", "contracts": [], "obs": b, "extra": extra_rust, "vextra": verif_extra, "timeout": timeout_s})
 
-    def _run_crate(self, config, tag, contracts, obs, extra_rust, verif_extra, timeout_s):
+    def execute(self):
+        """Prepare every queued group (weave, worker crates), then run ALL worker crates of all groups
+        through one pool of NCPU single-threaded `cargo kani` processes, then classify and run stage 2."""
+        groups = getattr(self, "groups", [])
+        self.groups = []
+        self.crate_of = getattr(self, "crate_of", {})
+        total_cost = sum(sum(getattr(o, "cost", 10) for o in g["obs"] if not o.name.endswith("__split") and o.kind != "native") for g in groups) or 1.0
+        jobs = []
+        for g in groups:
+            self._prepare_group(g, total_cost, jobs)
+        # pool
+        running = []
+        pending = sorted(jobs, key=lambda j: -j["cost"])
+        while pending or running:
+            while pending and len(running) < NCPU:
+                j = pending.pop(0)
+                j["proc"], j["lf"], j["cmdtxt"] = start_worker(j["crate"], j["config"], j["names"], j["timeout"], j["log"])
+                running.append(j)
+            time.sleep(1.0)
+            still = []
+            for j in running:
+                if j["proc"].poll() is None:
+                    still.append(j)
+                else:
+                    j["lf"].close()
+            if len(still) == len(running) and int(time.time()) % 60 == 0:
+                kill_orphan_solvers()
+            running = still
+        kill_orphan_solvers()
+        for g in groups:
+            if g.get("ok"):
+                self._finish_group(g)
+
+    def _prepare_group(self, g, total_cost, jobs):
+        config, tag, contracts, obs, extra_rust, verif_extra = g["config"], g["tag"], g["contracts"], g["obs"], g["extra"], g["vextra"]
         tier = self.tier
-        if not obs:
-            return
+        timeout_s = g["timeout"]
         if timeout_s is None:
             timeout_s = int(os.environ.get("VERIF_TIMEOUT", "0")) or (600 if tier == "quick" else 1200)
+        g["timeout_s"] = timeout_s
         cdir = os.path.join(self.scratch, config + tag)
         gl = os.path.join(cdir, "glam")
+        g["gl"], g["cdir"] = gl, cdir
         weave.copy_repo(gl)
         try:
             manifest = weave.weave(gl, contracts, os.path.join(VERIF, "model", "verif_mod.rs"), verif_extra)
@@ -548,25 +669,35 @@ class Session:
         for c in contracts:
             self.contracts_total.append({"config": config, "fn": c.path, "file": c.file, "woven": c.woven,
                                          "requires": c.requires, "ensures": c.ensures, "modifies": c.modifies})
-        stage1 = [o for o in obs if not o.name.endswith("__split")]
+        natives = [o for o in obs if o.kind == "native"]
+        obs = [o for o in obs if o.kind != "native"]
+        g["natives"] = natives
+        g["obs"] = obs
+        stage1 = [o for o in obs if not o.name.endswith("__split") and not o.name.endswith("__full")]
+        g["stage1"] = stage1
+        g["ok"] = True
+        g["jobs"] = []
+        if not stage1:
+            return
         byn = {o.name: o for o in obs}
-        # partition into worker crates, greedy by cost hint
-        W = max(1, min(NCPU, len(stage1)))
+        gcost = sum(getattr(o, "cost", 10) for o in stage1)
+        W = max(1, min(len(stage1), NCPU, int(round(1.5 * NCPU * gcost / total_cost)) or 1))
         loads = [0.0] * W
         parts = [[] for _ in range(W)]
         for o in sorted(stage1, key=lambda o: -getattr(o, "cost", 10)):
             k = loads.index(min(loads))
             parts[k].append(o)
             loads[k] += getattr(o, "cost", 10)
-        procs = []
-        self.crate_of = getattr(self, "crate_of", {})
+        bycontract = {o.contract: o for o in stage1 if o.contract}
         for k in range(W):
             hc = os.path.join(cdir, "h%d" % k)
             mine = list(parts[k])
-            bycontract = {o.contract: o for o in stage1 if o.contract}
             for o in parts[k]:
                 if o.split and o.split in byn:
                     mine.append(byn[o.split])
+                fb = getattr(o, "fallback", None)
+                if fb and fb in byn:
+                    mine.append(byn[fb])
                 # Kani insists that a stub_verified target has its proof_for_contract harness in the same
                 # crate: compile it here too (it is run only by the worker that owns it)
                 for p in o.stub_verified:
@@ -579,17 +710,25 @@ class Session:
             for o in mine:
                 self.crate_of.setdefault((config + tag, o.name), hc)
             log = os.path.join(self.logs_dir, "%s%s.w%d.stage1.log" % (config, tag, k))
-            pr, lf, cmdtxt = start_worker(hc, config, [o.name for o in parts[k]], timeout_s, log)
-            procs.append((pr, lf, log))
+            job = {"crate": hc, "config": config, "names": [o.name for o in parts[k]], "timeout": timeout_s, "log": log, "cost": loads[k]}
+            jobs.append(job)
+            g["jobs"].append(job)
+
+    def _finish_group(self, g):
+        config, tag, obs, stage1, gl, timeout_s = g["config"], g["tag"], g["obs"], g["stage1"], g["gl"], g["timeout_s"]
+        if g.get("natives"):
+            self.run_natives(config, tag, g["cdir"], g["natives"], g["extra"])
+        if not stage1:
+            return
         res = {}
-        for (pr, lf, log) in procs:
-            pr.wait()
-            lf.close()
-            r1 = parse_old(open(log, errors="replace").read())
+        cmdtxt = ""
+        for j in g["jobs"]:
+            cmdtxt = j.get("cmdtxt", "")
+            r1 = parse_old(open(j["log"], errors="replace").read())
             if "__compile_error__" in r1:
-                res.setdefault("__compile_error__", r1["__compile_error__"] + "\n(see %s)" % log)
+                res.setdefault("__compile_error__", r1["__compile_error__"] + "\n(see %s)" % j["log"])
             res.update({k: v for k, v in r1.items() if not k.startswith("__")})
-        self.cmds.append("(%s%s, %d worker crates) %s" % (config, tag, W, cmdtxt))
+        self.cmds.append("(%s%s, %d worker crates) %s" % (config, tag, len(g["jobs"]), cmdtxt))
         if "__compile_error__" in res:
             self.undecided.append({"ob": "*", "config": config, "why": "build failed: " + res["__compile_error__"][:900]})
             print("UNDECIDED build failed (%s)" % config)
@@ -616,6 +755,26 @@ class Session:
                     self.undecided.append({"ob": o.name, "config": config, "why": "canary " + verdict})
                 self.results.append(rec)
                 continue
+            fb = getattr(o, "fallback", None)
+            if verdict == "refuted" and fb and fb in byname:
+                # fast path (one recorded association order) refuted: try the full disjunction
+                hc = self.crate_of[(config + tag, o.name)]
+                log = os.path.join(self.logs_dir, "%s%s.%s.fallback.log" % (config, tag, fb))
+                pr, lf, _c = start_worker(hc, config, [fb], max(timeout_s, 1200), log)
+                pr.wait()
+                lf.close()
+                kill_orphan_solvers()
+                r2 = parse_old(open(log, errors="replace").read()).get(fb)
+                v2 = classify(byname[fb], r2)
+                rec["fallback"] = {"ob": fb, "verdict": v2, "time_s": (r2 or {}).get("time")}
+                if v2 == "discharged":
+                    verdict = rec["verdict"] = "discharged"
+                    rec["note"] = "matches another allowed association order than the one recorded in lib/trees.json"
+                elif v2 == "refuted":
+                    r = r2
+                    o = byname[fb]
+                else:
+                    verdict = rec["verdict"] = "undecided:fast-path-refuted-and-full-disjunction-" + v2
             if verdict == "refuted":
                 refuted.append((o, rec, r))
             elif verdict != "discharged":
@@ -633,6 +792,56 @@ class Session:
             for (o, rec, r) in refuted[24:]:
                 # too many refutations to detail: report them with the stage-1 information only
                 self.handle_refuted(o, config, self.crate_of[(config + tag, o.name)], gl, rec, r, kf, byname, 0)
+
+    # ----------------------------------------------------------------------------------------
+    def run_natives(self, config, tag, cdir, natives, extra_rust):
+        """Bounded stand-ins executed on the REAL code (plain cargo build of the woven copy, attributes
+        inert): each obligation body is run `tries` times on inputs drawn from the special-value lattice
+        and seeded random bits. Labelled bounded, never counted as proved."""
+        nd = os.path.join(cdir, "native")
+        gen_crate(nd, "../glam", config, natives, extra_rust)
+        open(os.path.join(nd, "src", "main.rs"), "w").write(REPLAY_MAIN)
+        env = dict(os.environ)
+        env["RUSTFLAGS"] = ("--cfg glam_verif_replay --cap-lints=allow " + CONFIGS[config]["rustflags"]).strip()
+        env["CARGO_NET_OFFLINE"] = "true"
+        p = subprocess.run(["cargo", "build", "--offline", "--bin", "gv"], cwd=nd, env=env, stdout=subprocess.PIPE, stderr=subprocess.STDOUT, text=True)
+        if p.returncode != 0:
+            self.undecided.append({"ob": "*native*", "config": config, "why": "native build failed: " + p.stdout[-800:]})
+            return
+        kf, _ = load_known_findings()
+        for o in natives:
+            tries = getattr(o, "tries", 2000)
+            t0 = time.time()
+            try:
+                r = subprocess.run([os.path.join(nd, "target", "debug", "gv"), "--search", str(tries), str(self.seed + 1), o.name],
+                                   stdout=subprocess.PIPE, stderr=subprocess.STDOUT, text=True, timeout=600)
+                out = r.stdout
+            except subprocess.TimeoutExpired:
+                out = "SEARCH-TIMEOUT"
+            rec = {"ob": o.name, "config": config, "fn": o.fn, "kind": "native-bounded", "class": o.cls, "solver": "none (execution of the real code)",
+                   "desc": o.desc, "time_s": round(time.time() - t0, 2), "checks": tries, "expect": o.expect, "bounded": o.bounded or ("%d executions" % tries),
+                   "clauses": o.clauses or 1, "stubs": []}
+            if "SEARCH-NOTHING" in out:
+                rec["verdict"] = "discharged"
+            elif "SEARCH-FOUND" in out:
+                rec["verdict"] = "refuted"
+                rec["failed_clauses"] = [l for l in out.splitlines() if l.startswith("FAILED-CLAUSE") or l.startswith("PANICKED")][:5]
+                known = [k for k in kf if k["prop"] == self.prop and k["ob"] == o.name and k["config"] in (config, "*")]
+                if known:
+                    rec["verdict"] = "known-finding"
+                    self.known_hits.append({"ob": o.name, "config": config, "what": known[0]["what"]})
+                else:
+                    rp = os.path.join(VERIF, "replays", self.prop)
+                    os.makedirs(rp, exist_ok=True)
+                    path = os.path.join(rp, "%s.%s.json" % (o.name, config))
+                    json.dump({"property": self.prop, "obligation": o.name, "config": config, "function": o.fn, "description": o.desc,
+                               "failed_clauses": rec["failed_clauses"], "replay": [{"output": out.strip().splitlines()[-12:], "reproduced": True}],
+                               "reproduced_on_real_code": True, "note": "bounded native check: the failing input was found by executing the real code"}, open(path, "w"), indent=1)
+                    self.violations.append({"ob": o.name, "config": config, "replay": path, "reproduced": True, "clauses": rec["failed_clauses"][:3]})
+            else:
+                rec["verdict"] = "undecided:native-run"
+                self.undecided.append({"ob": o.name, "config": config, "why": "native run gave no verdict: " + out[-300:]})
+            self.results.append(rec)
 
     # ----------------------------------------------------------------------------------------
     def handle_refuted(self, o, config, hc, gl, rec, r, kf, byname, timeout_s):
@@ -738,6 +947,15 @@ class Session:
 
     # ----------------------------------------------------------------------------------------
     def finish(self, level_note="", trusted_base=(), extra_cov=None, not_decided=()):
+        self.execute()
+        if PROBE:
+            trees = load_trees()
+            for r in self.results:
+                m = re.match(r"^(.*)__probe(\d+)$", r["ob"])
+                if m and r["verdict"] == "discharged":
+                    trees[m.group(1)] = min(int(m.group(2)), trees.get(m.group(1), 99))
+            json.dump(trees, open(os.path.join(VERIF, "lib", "trees.json"), "w"), indent=0, sort_keys=True)
+            print("probe: lib/trees.json now has %d entries" % len(trees))
         wall = time.time() - self.t0
         real = [r for r in self.results if not r.get("canary")]
         proved = [r for r in real if r["verdict"] == "discharged" and not r["bounded"]]
